@@ -470,13 +470,19 @@ class Program:
 
     # ---- lookup ----------------------------------------------------------------
     def fn(self, key):
-        return self.fns.get(key)
+        f = self.fns.get(key)
+        if f is not None and f.j.get("stub"):
+            return None         # flattened into its callers by lint/normalize.py: as an anchor it does not exist
+        return f
 
     def body_of(self, inst_id):
         return self.fns[self.insts[inst_id].key].body
 
     def ident(self, key):
         """Identity instance id of a definition (None if absent)."""
+        f = self.fns.get(key)
+        if f is not None and f.j.get("stub"):
+            return None
         for i in self.by_def.get(key, []):
             if self.insts[i].identity:
                 return i
@@ -602,6 +608,8 @@ class Program:
     # ---- call sites ------------------------------------------------------------------
     def sites(self, inst_id):
         """Yield (bb, term, callee_record) for every call in an instance."""
+        if inst_id is None:
+            return          # e.g. the instance of a closure that was desugared / a helper that was flattened
         inst = self.insts[inst_id]
         body = self.body_of(inst_id)
         for b in range(body.n):
